@@ -1,9 +1,9 @@
 SPECIFICATION MCSpec
 CONSTANTS Sender = {"s1", "s2"}
-          MaxFaults = 2
+          MaxFaults = 3
           QueueMode = FALSE
           QCap = 2
-          MaxConn = 3
+          MaxConn = 4
           Broken = "none"
           NPacks = 4
 CONSTRAINT ConnBound
